@@ -25,7 +25,7 @@ Definition gw_fld_eqb (a b : option nat) : bool :=
   | Some x, Some y => Nat.eqb x y
   | _, _ => false
   end.
-(* findOutputSpec: same aggType and same (normalised) input field *)
+(* the same aggregate: same function, same field *)
 Definition gw_ref_eqb (a b : gw_ref) : bool := gw_fn_eqb (gr_fn a) (gr_fn b) && gw_fld_eqb (gr_fld a) (gr_fld b).
 
 (* a row: the group-by tuple (ids of the column values; the encoding of the tuple into the map key,
@@ -158,24 +158,24 @@ Fixpoint gw_ieval (env : nat -> option Q) (p : gw_ipred) : option bool :=
   end.
 
 (* ---------------------------------------------------------------- window *)
-(* gc_bind: for the i-th call of the predicate, whether buildTrigger bound it to a SELECT aggregate
-   of the same function and field (outputAlias != "") instead of creating a trigger-only aggregator.
-   The code binds by comparing the SELECT's spelling of the function with the lower-cased call, so
-   the decision is an input of the model; it is honoured only if such a SELECT aggregate exists. *)
-Record gw_config := { gc_outs : list gw_ref; gc_pred : gw_pred; gc_bind : list bool }.
+(* gc_bind: for the i-th call of the predicate, the index (in gc_outs) of the SELECT aggregate whose value
+   buildTrigger makes the placeholder read (triggerSpec.outputAlias), or None for a trigger-only aggregator.
+   The decision is an input of the model: findOutputSpec compares the SELECT's spelling of the function with
+   the lower-cased call (so MAX(x) in SELECT is never bound) and the two input fields after normalizeField
+   (trimmed, LOWER-CASED), in the iteration order of a Go map. An index outside gc_outs is ignored. *)
+Record gw_config := { gc_outs : list gw_ref; gc_pred : gw_pred; gc_bind : list (option nat) }.
 
-Fixpoint gw_find_out (outs : list gw_ref) (a : gw_ref) : option nat :=
-  match outs with
-  | [] => None
-  | o :: t => if gw_ref_eqb o a then Some O
-              else match gw_find_out t a with Some j => Some (S j) | None => None end
+Definition gw_bound (outs : list gw_ref) (b : option nat) : option nat :=
+  match b with
+  | Some j => match nth_error outs j with Some _ => Some j | None => None end
+  | None => None
   end.
 
 (* triggerSpecs: (call, index of the SELECT aggregate it reads, if any) *)
-Fixpoint gw_tspecs_from (outs : list gw_ref) (calls : list gw_ref) (bind : list bool) : list (gw_ref * option nat) :=
+Fixpoint gw_tspecs_from (outs : list gw_ref) (calls : list gw_ref) (bind : list (option nat)) : list (gw_ref * option nat) :=
   match calls with
   | [] => []
-  | a :: t => (a, if hd false bind then gw_find_out outs a else None) :: gw_tspecs_from outs t (tl bind)
+  | a :: t => (a, gw_bound outs (hd None bind)) :: gw_tspecs_from outs t (tl bind)
   end.
 Definition gw_tspecs (c : gw_config) : list (gw_ref * option nat) :=
   gw_tspecs_from (gc_outs c) (gw_calls (gc_pred c)) (gc_bind c).
